@@ -25,8 +25,12 @@ func MaskedReduce(t *Dense, retType Dtype, fn maskedReduceFn, axis ...int) inter
 
 	// iterate through retVal
 	slices[ax] = makeRS(0, t.shape[ax])
-	for _, err := it.Next(); err == nil; _, err = it.Next() {
-		coord := it.Coord()
+	for i, err := it.Next(); err == nil; i, err = it.Next() {
+		// the coordinate of the element just yielded (it.Coord() already points at the next one)
+		coord, cerr := Itol(i, retVal.Shape(), retVal.Strides())
+		if cerr != nil {
+			return -1
+		}
 		k := 0
 		for d := range slices {
 			if d != ax {
